@@ -353,6 +353,9 @@ func runC04(c *fw.Check) {
 		bound = 3
 		c.SetBudget(45 * 60 * 1e9)
 	}
+	if c.Deep() {
+		bound = 4
+	}
 	entries := gen.Catalogue()
 	all, batches := genBatches(entries, bound, 40)
 	c.Rule = fmt.Sprintf("all variants with <=%d deviations of the %d-production catalogue (incl. 14 reference topologies: mutually referring globals, recursive calls, phi/branch cycles, use before definition, blockaddress into other functions and of equally named labels, recursive and mutually recursive types, metadata cycles and forward references, aliases of aliases, shared comdats and attribute groups, use-list orders) are parsed in batches (so equally named locals of many functions coexist) and the object graph is walked by reflection: every global-like operand must be pointer-identical to an element of the module's lists, every block/param/instruction operand to an element of the ENCLOSING function, blockaddress blocks to blocks of the named function, every named type to the TypeDefs object, comdats/attribute groups/numbered metadata likewise; Parent links agree with containment; no block without terminator. Each text is parsed a second time in the same process and the second module must satisfy the same constraints (a reference resolving into the module of an EARLIER parse is caught); PLUS all two-variant modules (every ordered pair of productions in their simplest form, every ordered pair of <=1-deviation variants of one production, each variant next to a twin of itself); a failure that needs several variants in one module is narrowed to a smallest failing combination. distinct = variants.", bound, len(entries))
